@@ -38,7 +38,7 @@ func TestC17(t *testing.T) {
 	if r.Thorough() {
 		trans = hx.Transports
 	}
-	reps := r.Pick(10, 60)
+	reps := r.Pick(10, 400)
 	for rep := 0; rep < reps; rep++ {
 		for _, tr := range trans {
 			for _, pat := range []string{"pubsub", "bus", "star", "survey"} {
